@@ -19,8 +19,46 @@ class Obligation:
                 'secs': round(self.secs, 4), 'model': self.model, 'detail': self.detail}
 
 
+OBL_CACHE = {}
+DEFERRED = []
+_OPTS = [None]
+
+
+def _solve_deferred(i):
+    ob, assumptions, goal, inputs = DEFERRED[i]
+    verdict, backend, secs, model = solve.prove(assumptions, goal, _OPTS[0])
+    mv = None
+    if verdict in ('sat', 'candidate') and model is not None:
+        mv = {}
+        for k, t in inputs.items():
+            try:
+                mv[k] = solve.model_value(model, t)
+            except Exception as e:  # pragma: no cover
+                mv[k] = '<%s>' % e
+    return i, verdict, backend, secs, mv
+
+
+def solve_all_deferred(opts, procs):
+    """discharge the deferred obligations in forked workers (they inherit the z3 terms by copy-on-write)"""
+    import multiprocessing
+    _OPTS[0] = opts
+    n = len(DEFERRED)
+    if n == 0:
+        return
+    if procs <= 1 or n == 1:
+        results = [_solve_deferred(i) for i in range(n)]
+    else:
+        ctx = multiprocessing.get_context('fork')
+        with ctx.Pool(min(procs, n)) as pool:
+            results = pool.map(_solve_deferred, range(n), chunksize=1)
+    for i, verdict, backend, secs, mv in results:
+        ob = DEFERRED[i][0]
+        ob.verdict, ob.backend, ob.secs, ob.model = verdict, backend, secs, mv
+
+
 class State:
     def __init__(self, ctl, opts):
+        self.cached_obls = 0
         self.ctl = ctl
         self.opts = opts
         self.pc = []
@@ -73,12 +111,21 @@ class State:
             return True
         if z3.is_false(cond):
             return False
+        if self.ctl.replaying():
+            c = self.ctl.replay_next()
+            if c == 0:
+                self.assume(cond)
+                return True
+            self.assume(z3.Not(cond))
+            return False
         ft = self.feasible(cond)
         ff = True if not ft else self.feasible(z3.Not(cond))
         if ft and not ff:
+            self.ctl.record_forced(0, label)
             self.assume(cond)
             return True
         if ff and not ft:
+            self.ctl.record_forced(1, label)
             self.assume(z3.Not(cond))
             return False
         if not ft and not ff:
@@ -98,8 +145,31 @@ class State:
         ob = Obligation(name, self.ctl.label())
         if isinstance(goal, bool):
             goal = z3.BoolVal(goal)
+        goal = z3.simplify(goal) if not z3.is_quantifier(goal) else goal
         ob.detail = detail
         extra = core.any_axioms() if self.uses_any else []
+        key = (name, tuple(x.get_id() for x in self.pc), goal.get_id(), self.uses_any)
+        hit = OBL_CACHE.get(key)
+        if hit is not None:
+            self.cached_obls += 1
+            try:
+                self.assume(goal)
+            except PathKill:
+                self.dead = True
+                raise
+            return hit[0]
+        OBL_CACHE[key] = (ob, list(self.pc), goal)
+        ob.goal = str(goal)[:400]
+        ob.detail = detail
+        if self.opts.get('defer', True):
+            DEFERRED.append((ob, self.pc + extra, goal, dict(self.inputs)))
+            self.obls.append(ob)
+            try:
+                self.assume(goal)
+            except PathKill:
+                self.dead = True
+                raise
+            return ob
         res = solve.prove(self.pc + extra, goal, self.opts)
         ob.verdict, ob.backend, ob.secs, model = res
         if ob.verdict in ('sat', 'candidate') and model is not None:
